@@ -65,7 +65,8 @@ CHECKS = {
         text='Theorems PMC.C04.*: not/and/or/imply as set operations, A g = not E not g, the fixed-point expansion laws '
              'and R/F/G dualities, CTL = LTL on the shared fragment — for the models, all structures and formulas. The '
              'same laws are evaluated on the implementation\'s answers (text and object entry, all three checkers).',
-        note=TB + 'Agreement with the CTL* checker inherits the namesOK hypothesis of C03.'),
+        note=TB + 'C04Ctls.lean: the same laws and the agreement of the three checkers (three_checkers_agree, ctls_eq_ctl, '
+             'ctls_eq_ltl) at CTL*-checker level, under the hypotheses of ctls_exact (identifier names, arity >= 2).'),
     'C05': dict(
         cat='proof', ref='5/C05',
         technique='Lean 4 theorems restrict_equiv / restrictCTL_equiv / lnot_equiv (+ alphabet theorems) about a '
@@ -76,7 +77,7 @@ CHECKS = {
              'negation. Tie: the implementation\'s output tree equals the model\'s output tree on every formula of '
              'depth<=1 per logic, sampled depth 2, random to depth 6; the alphabet predicate is also evaluated on the '
              'implementation\'s own output.',
-        note=TB + 'Known finding KF-C05-a: LTL.A(g).get_equivalent_restricted_formula() raises AttributeError.'),
+        note=TB + 'Known finding KF-C05-a: LTL.A(g).get_equivalent_restricted_formula() raises AttributeError. C05Alphabet.lean: per-logic alphabets (restrict_alphabet_ltl: no quantifier for LTL path formulas; restrictCTL_alphabet_path).'),
     'C12': dict(
         cat='proof', ref='5/C12',
         technique='Lean 4 theorem sccs_correct (20-field invariant over the DFS of the Nuutila variant) + differential '
@@ -107,7 +108,7 @@ CHECKS = {
              'same labels / induced transitions, get_substructure fails iff the induced relation is not total. Tie: '
              'all relations on <=2 states, sampled 3 states, with S0 outside S, labels of non-states, non-dict L, '
              'non-iterable label values, all subsets V; label-set identities compared.',
-        note=TB + '"No label set shared" is observed through id() on the implementation (values are immutable in the model).'),
+        note=TB + '"No label set shared" is observed through id() on the implementation (values are immutable in the model). C14Labels.lean: clone_shares_no_label_set / substructure_shares_no_label_set / construct_distinct at label-set granularity (heap model LabelStore.lean; a shallow clone has the same value but violates them). C14Api.lean: replace_labelling_function.'),
     'C16': dict(
         cat='proof', ref='5/C16',
         technique='Lean 4 theorems: ROBDD canonicity, unique-table invariant preserved by node creation (find_isomorph '
@@ -122,7 +123,7 @@ CHECKS = {
         note=TB + 'CPython weak sets + reference counting are modelled as "a node disappears only when no live node or '
              'root points to it"; the store-level apply/restrict/invert with their per-call caches are modelled in '
              'BDDStoreOps.lean and proved to compute the tree-level results (applyS_spec, cache_transparent, '
-             'session_canonical).'),
+             'session_canonical). C16History.lean: history_canonical composes the pieces for any interleaving of new/apply/restrict/invert/drop/gc.'),
     'C17': dict(
         cat='proof', ref='5/C17',
         technique='Lean 4 theorems and_spec/or_spec/xor_spec/invert_spec/restrict_spec/variables_eq_support on reduced '
@@ -162,7 +163,7 @@ CHECKS.update({
              'shuffled S/R/L, renamed atoms, added unreachable component) under 4 (quick) / 32 (thorough) hash seeds, '
              'each seed in a fresh interpreter; all answers must equal the model\'s canonical answer.',
         note=TB + 'That CPython\'s actual iteration orders are among the modelled ones (all of them) needs no assumption; '
-             'the CTL* checker is covered by the correspondence only (its exactness theorem carries namesOK).'),
+             'the CTL* checker is covered by the correspondence only (its exactness theorem carries namesOK). C06Ctls.lean: the same invariances for the CTL* checker (corollaries of ctls_exact).'),
     'C11': dict(
         cat='proof', ref='5/C11',
         technique='Lean 4 theorems eq_iff_same_tree / eq_hash / hashKey_injective / eq_refl / eq_symm / eq_trans from '
@@ -185,8 +186,12 @@ CHECKS.update({
              'clone), the answer equals the pure function of the argument\'s value, and for every finite call sequence '
              'the n-th answer is the pure answer on the ORIGINAL values (history). Tie: random interleavings of '
              'modelcheck calls (3 logics, text/object, with and without F) over pools of live structures and formula '
-             'objects with a deep snapshot (content and id of every container, formula node ids) around every call; '
-             'repeated calls must agree with the first answer and with the model.',
+             'objects with a content snapshot around every call; the caller relabels / edits its objects between '
+             'calls; every call re-evaluated on freshly built equal arguments; repeated calls must agree with the first '
+             'answer and with the model. C07Fair.lean: the same frame/result theorems with F (store-level modelcheckFS '
+             'allocate and label the clone). C07Labels.lean: label sets as heap objects - ctls_writes_only_fresh, '
+             'ctls_frame_labels, ... hold for every DeepClone (clone_deep) and are refuted for a shallow clone '
+             '(shallow_clone_breaks_frame).',
         note=TB + 'The store model represents the label-mutation discipline (clone-before-label) of CTLS.modelcheck; the '
              'fairness branches are covered by the snapshots only. Formula objects are immutable values in the model.'),
     'C09': dict(
